@@ -32,7 +32,7 @@ HAS_B = ["Execute", "ExecuteWithStopTagDirect", "ExecuteSelectedRulesWithControl
 CONCURRENT = [e for e in ENTRIES if any(k in e for k in ("Concurrent", "Mix", "DAG"))]
 
 NAMES = ["ra", "rb", "rc", "rd", "re", "rf", "rg", "rh", "ri", "rj"]
-SALS = [9, 7, 7, 5, 3, 0, 0, -2, -5]
+SALS = [9, 7, 7, 5, 3, 0, 0, -2, -5, 2 ** 63 - 100, -2 ** 63 + 100]      # ties, negatives, near the int64 extremes (detie may shift a salience by a few units)
 KIND_FLAGS = {"plain": (False, False), "ret": (False, True), "bare": (False, True),
               "fail": (True, False), "retfail": (True, False),
               "panic1": (True, False), "panic2": (True, False), "loop": (True, False),
@@ -68,14 +68,14 @@ def rand_names(rng, rules, exact=None):
     k = rng.randint(1, len(pool))
     l = rng.sample(pool, k)
     if rng.random() < 0.3:
-        l.insert(rng.randint(0, len(l)), "zz")
+        l.insert(rng.randint(0, len(l)), rng.choice(["zz", "zz", ""]))
     if rng.random() < 0.2:
         l.append(rng.choice(l))
     return l
 
 
 def rand_layers(rng, rules):
-    pool = [r["name"] for r in rules] + ["zz"]
+    pool = [r["name"] for r in rules] + ["zz", ""]       # "" is an unknown name like any other
     n = rng.choice([0, 1, 2, 2, 3, 3, 4])
     out = []
     for _ in range(n):
@@ -88,6 +88,14 @@ def rand_case(rng, entry, kinds=("plain", "ret", "fail"), weights=(3, 3, 2), max
     k = rng.randint(1, maxk) if rng.random() > 0.04 else 0
     tag = entry in TAGGED
     rules = mk_rules(rng, k, kinds, weights, stop_p=0.3 if tag else 0.0)
+    x = rng.random()
+    if x < 0.15:            # every salience negative (same order): "the highest" is below the default 0
+        for r in rules:
+            if abs(r["sal"]) < 100:
+                r["sal"] -= 10
+    elif x < 0.20:          # every salience equal
+        for r in rules:
+            r["sal"] = 0
     c = {"entry": entry, "rules": rules, "b": rng.random() < 0.5, "n": 0, "m": 0, "names": [], "layers": [],
          "stop0": tag and rng.random() < 0.08, "prev": rng.choice(["fresh", "stale", "stale-empty"]), "hold": ""}
     if entry in NM:
@@ -183,18 +191,32 @@ def model_order(c, o):
     return sorted(c["rules"], key=lambda r: -r["sal"])
 
 
+def coq_oz(v):
+    """a result-map value as `option Z` (nil = None); anything that is not an integer becomes a value no rule returns"""
+    if v is None:
+        return "None"
+    if isinstance(v, bool) or not isinstance(v, int):
+        return "(Some (-999)%Z)"
+    return "(Some %s)" % coq_z(v)
+
+
+def rule_value(r):
+    """what the observer rule returns when it returns: its version number for `return <ver>`, nil for a bare return"""
+    return "(Some %s)" % coq_z(r["ver"]) if r["kind"] == "ret" else "None"
+
+
 def coq_case(c, o):
     rules = model_order(c, o)
-    rl = coq_list(["mkER %s %s %s %s %s" % (coq_str(r["name"]), coq_z(r["sal"]), coq_bool(KIND_FLAGS[r["kind"]][0]),
-                                              coq_bool(KIND_FLAGS[r["kind"]][1]), coq_bool(r["stop"])) for r in rules])
+    rl = coq_list(["mkER %s %s %s %s %s %s" % (coq_str(r["name"]), coq_z(r["sal"]), coq_bool(KIND_FLAGS[r["kind"]][0]),
+                                                 coq_bool(KIND_FLAGS[r["kind"]][1]), coq_bool(r["stop"]), rule_value(r)) for r in rules])
     cfg = "mkCfg %s %s %s %s %s %s %s %s" % (
         rl, coq_bool(c["b"]), coq_z(c["n"]), coq_z(c["m"]), coq_list([coq_str(n) for n in c["names"]]),
         coq_list([coq_list([coq_str(n) for n in ly]) for ly in c["layers"]]), coq_bool(c["stop0"]),
-        "None" if c["prev"] == "fresh" else ("(Some [])" if c["prev"] == "stale-empty" else "(Some [%s])" % coq_str("old__")))
+        "None" if c["prev"] == "fresh" else ("(Some [])" if c["prev"] == "stale-empty" else "(Some [(%s, Some 1%%Z)])" % coq_str("old__")))
     crash = bool(o.get("crash") or o.get("panic") or o.get("hang"))
     tr = coq_list([("St " if k == "S" else "En ") + coq_str(n) for k, n in o["events"]])
-    keys = coq_list([coq_str(k) for k in sorted(o["result"].keys())])
-    return "mkEC %s E%s (%s) %s %s %s %s" % (coq_nat(c["id"]), c["entry"], cfg, tr, coq_bool(o["err"]), keys, coq_bool(crash))
+    entries = coq_list(["(%s, %s)" % (coq_str(k), coq_oz(v)) for k, v in sorted(o["result"].items())])
+    return "mkEC %s E%s (%s) %s %s %s %s" % (coq_nat(c["id"]), c["entry"], cfg, tr, coq_bool(o["err"]), entries, coq_bool(crash))
 
 
 HEADER = """From Coq Require Import String List ZArith Bool.
@@ -206,10 +228,16 @@ Import ListNotations.
 CODES = {1: "the call panicked, crashed the process or did not return",
          2: "the observed start/end trace is not one the model's stages allow (order, barrier, exactly-once or window violated)",
          3: "the error flag differs",
-         4: "the result map keys differ",
+         4: "the result map differs (keys, or the value bound to a key)",
          5: "the specification predicts a crash (cannot happen)",
-         6: "a rule was still running, or started, after the call had returned"}
-SYMPTOM = {1: "crash", 2: "trace", 3: "error-flag", 4: "result-map", 5: "spec", 6: "after-return"}
+         6: "a rule was still running, or started, after the call had returned",
+         7: "the variant with a stop tag that is never set and the variant without a tag differ on the same rule set (the failing rules named by the returned error, the error flag or the result map)"}
+SYMPTOM = {1: "crash", 2: "trace", 3: "error-flag", 4: "result-map", 5: "spec", 6: "after-return", 7: "twin"}
+
+
+def err_rule_names(o):
+    """the rule names a returned error mentions (`rule: "x" executed, error:` / `rule "x" executed, ...`)"""
+    return sorted(set(re.findall(r'rule:? "([^"]*)" executed', o.get("errmsg") or "")))
 
 
 def evaluate(tag, cases, obs):
@@ -313,6 +341,11 @@ def campaign(run, pid, cases, entries, design_rule, extra_obligations=()):
             spec_bad.append((c["id"], 4))
         if byid[c["id"]].get("late"):
             spec_bad.append((c["id"], 6))
+        if c.get("twin") is not None:
+            o1, o2 = byid[c["id"]], byid[c["twin"]]
+            if not (o1.get("crash") or o2.get("crash")) and (err_rule_names(o1) != err_rule_names(o2) or bool(o1["err"]) != bool(o2["err"]) or o1["result"] != o2["result"]):
+                o1["twin_observation"] = {k: o2.get(k) for k in ("err", "errmsg", "result")}
+                spec_bad.append((c["id"], 7))
         op = order_problem(c, byid[c["id"]])
         if op:
             byid[c["id"]]["order_problem"] = op
